@@ -127,3 +127,157 @@ Proof.
   pose proof (dur_to_of_us d) as E. destruct (dur_of_us d) as [s n].
   rewrite to_timedelta_is_spec; rewrite E; [reflexivity|assumption].
 Qed.
+
+(* ====================================================================================== *)
+(* 2. the wire form                                                                         *)
+(* ====================================================================================== *)
+Lemma key_of_arith fno wt : 0 <= fno -> 0 <= wt < 8 -> key_of fno wt = wt + fno * 8.
+Proof.
+  intros Hf Hw. unfold key_of. rewrite Z.lor_comm.
+  rewrite lor_shiftl_add by (change (2 ^ 3) with 8; lia). reflexivity.
+Qed.
+
+Lemma key_num fno wt : 0 <= wt < 8 -> Z.shiftr (wt + fno * 8) 3 = fno.
+Proof. intros. rewrite Z.shiftr_div_pow2 by lia. change (2 ^ 3) with 8. lia. Qed.
+
+Lemma key_wt fno wt : 0 <= wt < 8 -> Z.land (wt + fno * 8) 7 = wt.
+Proof. intros. change 7 with (Z.ones 3). rewrite Z.land_ones by lia. change (2 ^ 3) with 8. lia. Qed.
+
+Lemma encode_nonempty v bs : - 2 ^ 63 <= v < 2 ^ 64 -> encode_varint v = Ok bs -> bs <> [].
+Proof.
+  intros Hv E. destruct (encode_in_range v Hv) as (bs' & E' & (Sh & _) & _).
+  rewrite E in E'. injection E' as <-. apply varint_shape_nonempty, Sh.
+Qed.
+
+Lemma encode_load v bs rest :
+  - 2 ^ 63 <= v < 2 ^ 64 -> encode_varint v = Ok bs -> load_varint (bs ++ rest) = Ok (v mod 2 ^ 64, bs, rest).
+Proof.
+  intros Hv E. destruct (encode_load_inverse v rest Hv) as (bs' & E' & L).
+  rewrite E in E'. injection E' as <-. exact L.
+Qed.
+
+Lemma load_loop_cons {A} (h : A -> Z -> Z -> pval -> result A) f bs st :
+  bs <> [] -> load_loop h (S f) bs st = load_step h (load_loop h f) bs st.
+Proof. destruct bs; [congruence|reflexivity]. Qed.
+
+(* one varint field, consumed whole *)
+Lemma load_step_varint {A} (h : A -> Z -> Z -> pval -> result A) rec fno v kb vb rest st st' :
+  0 < fno < 2 ^ 60 -> encode_varint (key_of fno 0) = Ok kb ->
+  - 2 ^ 63 <= v < 2 ^ 64 -> encode_varint v = Ok vb ->
+  h st fno 0 (PVar (v mod 2 ^ 64)) = Ok st' ->
+  load_step h rec (kb ++ vb ++ rest) st = rec rest st'.
+Proof.
+  intros Hf Ek Hv Ev Hh. unfold load_step.
+  rewrite key_of_arith in Ek by lia.
+  assert (Hk : - 2 ^ 63 <= 0 + fno * 8 < 2 ^ 64) by lia.
+  rewrite (encode_load _ _ _ Hk Ek). cbn [bind].
+  rewrite Z.mod_small by lia. rewrite key_num, key_wt by lia.
+  replace (fno =? 0) with false by lia.
+  unfold read_payload. cbn [Z.eqb]. rewrite (encode_load _ _ _ Hv Ev). cbn [bind].
+  rewrite Hh. reflexivity.
+Qed.
+
+Lemma read_exactly_app p rest : read_exactly (Zlength p) (p ++ rest) = Ok (p, rest).
+Proof.
+  unfold read_exactly, Zlength. rewrite app_length, Nat2Z.inj_add.
+  replace (Z.of_nat (length p) + Z.of_nat (length rest) <? Z.of_nat (length p)) with false by lia.
+  rewrite Nat2Z.id, firstn_app, Nat.sub_diag, firstn_all, skipn_app_exact. cbn [firstn]. rewrite app_nil_r. reflexivity.
+Qed.
+
+(* one length-delimited field, consumed whole *)
+Lemma load_step_lendelim {A} (h : A -> Z -> Z -> pval -> result A) rec fno kb lb p rest st st' :
+  0 < fno < 2 ^ 60 -> encode_varint (key_of fno 2) = Ok kb ->
+  Zlength p < 2 ^ 64 -> encode_varint (Zlength p) = Ok lb ->
+  h st fno 2 (PRaw p) = Ok st' ->
+  load_step h rec (kb ++ lb ++ p ++ rest) st = rec rest st'.
+Proof.
+  intros Hf Ek Hp El Hh. unfold load_step.
+  rewrite key_of_arith in Ek by lia.
+  assert (Hk : - 2 ^ 63 <= 2 + fno * 8 < 2 ^ 64) by lia.
+  rewrite (encode_load _ _ _ Hk Ek). cbn [bind].
+  rewrite Z.mod_small by lia. rewrite key_num, key_wt by lia.
+  replace (fno =? 0) with false by lia.
+  unfold read_payload. cbn [Z.eqb].
+  assert (Hl0 : 0 <= Zlength p) by (unfold Zlength; lia).
+  assert (Hl : - 2 ^ 63 <= Zlength p < 2 ^ 64) by lia.
+  rewrite (encode_load _ _ _ Hl El). cbn [bind].
+  rewrite Z.mod_small by lia. rewrite read_exactly_app. cbn [bind].
+  cbn [Z.eqb Pos.eqb bind]. rewrite Hh. reflexivity.
+Qed.
+
+Lemma enc_key_1_0 : encode_varint (key_of 1 0) = Ok [x08].
+Proof. vm_compute. reflexivity. Qed.
+Lemma enc_key_2_0 : encode_varint (key_of 2 0) = Ok [x10].
+Proof. vm_compute. reflexivity. Qed.
+
+Lemma ser_varint_field_1 s : - 2 ^ 63 <= s < 2 ^ 63 -> s <> 0 ->
+  exists b, encode_varint s = Ok b /\ ser_varint_field 1 s = Ok (x08 :: b) /\ canonical (s mod 2 ^ 64) b /\ (length b <= 10)%nat.
+Proof.
+  intros Hs Hz. destruct (encode_in_range s ltac:(lia)) as (b & E & C & L).
+  exists b. unfold ser_varint_field. replace (s =? 0) with false by lia.
+  rewrite enc_key_1_0, E. cbn [bind app]. auto.
+Qed.
+
+Lemma ser_varint_field_2 n : - 2 ^ 63 <= n < 2 ^ 63 -> n <> 0 ->
+  exists b, encode_varint n = Ok b /\ ser_varint_field 2 n = Ok (x10 :: b) /\ canonical (n mod 2 ^ 64) b /\ (length b <= 10)%nat.
+Proof.
+  intros Hs Hz. destruct (encode_in_range n ltac:(lia)) as (b & E & C & L).
+  exists b. unfold ser_varint_field. replace (n =? 0) with false by lia.
+  rewrite enc_key_2_0, E. cbn [bind app]. auto.
+Qed.
+
+Lemma h_sn_1 s0 n0 s : - 2 ^ 63 <= s < 2 ^ 63 -> h_sn (s0, n0) 1 0 (PVar (s mod 2 ^ 64)) = Ok (s, n0).
+Proof. intros H. cbn [h_sn Z.eqb andb]. rewrite (sign_recover_correct 64 s) by (change (2 ^ (64 - 1)) with (2 ^ 63); lia). reflexivity. Qed.
+
+Lemma h_sn_2 s0 n0 n : - 2 ^ 31 <= n < 2 ^ 31 -> h_sn (s0, n0) 2 0 (PVar (n mod 2 ^ 64)) = Ok (s0, n).
+Proof. intros H. cbn [h_sn Z.eqb andb]. rewrite (sign_recover_correct 32 n) by (change (2 ^ (32 - 1)) with (2 ^ 31); lia). reflexivity. Qed.
+
+(* the two-field message: encoder meets the wire specification, decoder inverts it *)
+Theorem bytes_parse_sn s n :
+  - 2 ^ 63 <= s < 2 ^ 63 -> - 2 ^ 31 <= n < 2 ^ 31 ->
+  exists bs, bytes_sn s n = Ok bs /\ sn_wire s n bs /\ parse_sn bs = Ok (s, n) /\ (length bs <= 22)%nat /\
+             (bs = [] <-> s = 0 /\ n = 0).
+Proof.
+  intros Hs Hn. unfold bytes_sn, parse_sn.
+  destruct (Z.eq_dec s 0) as [->|Hs0]; destruct (Z.eq_dec n 0) as [->|Hn0].
+  - exists []. cbn. repeat split; try lia; try reflexivity.
+    exists [], []. repeat split; left; auto.
+  - destruct (ser_varint_field_2 n ltac:(lia) Hn0) as (b & E & F & C & L).
+    exists (x10 :: b). rewrite F. cbn [ser_varint_field Z.eqb bind app].
+    split; [reflexivity|]. split; [|split; [|split; [cbn [length]; lia|split; [congruence|lia]]]].
+    + exists [], (x10 :: b). repeat split; [left; auto|right; split; [exact Hn0|exists b; auto]].
+    + cbn [length]. rewrite load_loop_cons by congruence.
+      change (x10 :: b) with ([x10] ++ b ++ []). rewrite app_nil_r.
+      replace ([x10] ++ b) with ([x10] ++ b ++ []) by (rewrite app_nil_r; reflexivity).
+      rewrite (load_step_varint h_sn _ 2 n [x10] b [] (0, 0) (0, n)); try lia; try assumption.
+      * destruct (length b); reflexivity.
+      * exact enc_key_2_0.
+      * apply h_sn_2, Hn.
+  - destruct (ser_varint_field_1 s Hs Hs0) as (b & E & F & C & L).
+    exists (x08 :: b). rewrite F. cbn [ser_varint_field Z.eqb bind app]. rewrite app_nil_r.
+    split; [reflexivity|]. split; [|split; [|split; [cbn [length]; lia|split; [congruence|lia]]]].
+    + exists (x08 :: b), []. rewrite app_nil_r. repeat split; [right; split; [exact Hs0|exists b; auto]|left; auto].
+    + cbn [length]. rewrite load_loop_cons by congruence.
+      replace (x08 :: b) with ([x08] ++ b ++ []) by (rewrite app_nil_r; reflexivity).
+      rewrite (load_step_varint h_sn _ 1 s [x08] b [] (0, 0) (s, 0)); try lia; try assumption.
+      * destruct (length b); reflexivity.
+      * exact enc_key_1_0.
+      * apply h_sn_1, Hs.
+  - destruct (ser_varint_field_1 s Hs Hs0) as (b1 & E1 & F1 & C1 & L1).
+    destruct (ser_varint_field_2 n ltac:(lia) Hn0) as (b2 & E2 & F2 & C2 & L2).
+    exists ((x08 :: b1) ++ (x10 :: b2)). rewrite F1, F2. cbn [bind].
+    split; [reflexivity|]. split; [|split; [|split; [rewrite app_length; cbn [length]; lia|split; [cbn; congruence|lia]]]].
+    + exists (x08 :: b1), (x10 :: b2). repeat split; right; split; auto; eexists; eauto.
+    + assert (Hl : exists f, length ((x08 :: b1) ++ x10 :: b2) = S (S f)).
+      { rewrite app_length. cbn [length]. exists (length b1 + length b2)%nat. lia. }
+      destruct Hl as (f & ->).
+      rewrite load_loop_cons by (cbn; congruence).
+      replace ((x08 :: b1) ++ x10 :: b2) with ([x08] ++ b1 ++ (x10 :: b2)) by reflexivity.
+      rewrite (load_step_varint h_sn _ 1 s [x08] b1 (x10 :: b2) (0, 0) (s, 0)); try lia; try assumption;
+        [|exact enc_key_1_0|apply h_sn_1, Hs].
+      rewrite load_loop_cons by congruence.
+      replace (x10 :: b2) with ([x10] ++ b2 ++ []) by (rewrite app_nil_r; reflexivity).
+      rewrite (load_step_varint h_sn _ 2 n [x10] b2 [] (s, 0) (s, n)); try lia; try assumption;
+        [|exact enc_key_2_0|apply h_sn_2, Hn].
+      destruct f; reflexivity.
+Qed.
